@@ -42,7 +42,7 @@ def includes():
 
 
 def compile_cpp(sources, out, defines=(), extra_inc=(), timeout=300):
-    cmd = [CXX, *FLAGS, *includes(), *[f"-I{i}" for i in extra_inc], *[f"-D{d}" for d in defines], *sources, "-o", out]
+    cmd = [CXX, *FLAGS, *includes(), *[f"-I{i}" for i in extra_inc], *[f"-D{d}" for d in defines], *sources, "-o", out]  # sources may start with "-c"
     try:
         cp = subprocess.run(cmd, capture_output=True, text=True, timeout=timeout)
     except subprocess.TimeoutExpired:
